@@ -328,7 +328,7 @@ PROPS["C03"] = {
     "technique": "fuzzing with a semantic oracle inside the target: systematic structure-aware mutation sweep of a generated seed corpus (fork-isolated, every cell attributed) plus a coverage-guided libFuzzer campaign on the same target function",
     "rule": "stage 0 (enumerated): every seed file (catalogue entry x {1,2} channels, plus metadata-rich variants of WAV/WAVEX/RF64/AIFF/CAF/W64 carrying strings, bext, cart, cue, smpl/INST, chan, PEAK and custom chunks) x mutation {none, truncate, truncate + flipped header byte, zero/0xFF a 4-byte field, flip a byte, set a field to 24 boundary constants in both byte orders, swap adjacent chunks, inflate a chunk size with and without truncation} x position {every byte of the first 96 (2600 for rich seeds), every chunk boundary +-1, 20 evenly spaced, the tail} with a derived 4-8 op script and route {virtual I/O 70 %, memfd descriptor, pipe}; "
             "stage 1 (libFuzzer, coverage-guided, fork mode): input = file bytes || <= 24 ops || control (route, RAW SF_INFO with 16 encodings), seeded corpus + dictionary of all MAKE_MARKER ids, and an empty-corpus campaign in thorough; "
-            "oracle inside the target: NULL => sf_error(NULL) != 0 and a message; handle => 1 <= channels <= 1024, samplerate >= 1, frames >= 0, sections >= 1, container and encoding among the public constants; every read count <= request; ASan + bounds on exact-size caller buffers for all four read types, sf_read_raw, strings, every GET/CALC command, SF_CUES_VAR(1,2,3,100), chunk iteration with exact and short buffers; invariant hook after every call; per-call I/O budget 2000000 + 100 callbacks per input byte (virtual I/O), 30 s alarm / libFuzzer -timeout=25 for CPU-bound loops; LSan per group; "
+            "oracle inside the target: NULL => sf_error(NULL) != 0 and a message; handle => 1 <= channels <= 1024, samplerate >= 1, frames >= 0, sections >= 1, container and encoding among the public constants; every read count <= request; ASan + bounds on exact-size caller buffers for all four read types, sf_read_raw, strings, every GET/CALC command, SF_CUES_VAR(1,2,3,100), chunk iteration with exact and short buffers; invariant hook after every call; per-call I/O budget 2000000 + 100 callbacks per input byte (virtual I/O), 10 s alarm per cell (a candidate only: reported after three replays under a 45 s limit) / libFuzzer -timeout=25 for CPU-bound loops; LSan per group; "
             "non-trivial = the open succeeded; distinct = one per enumerated cell (stage 0) / corpus unit (stage 1)",
     "assumptions": BASE_ASSUME + ["negative read returns are counted (class negative_read_return) but not judged: the statement bounds time and memory accesses, not return conventions",
                                   "allocator_may_return_null=1: a hostile size that makes malloc fail must be handled by the library, a size that malloc can satisfy lazily is only caught through the work it causes",
